@@ -35,9 +35,9 @@ PROPS = {
             "claim": "Proof (Lean 4): termination for every reference graph (pigeonhole on duplicate-free chains), re-entry aborts as MALFORMED_FLAG with no event for aborted frames, a cycle is reported only for a key on the current path (diamonds are not). Tied by graph-shape correspondence to depth 60 with crash/timeout isolation and the stack-by-value obligation."},
     "C11": {"obligations": ["Status", "WriteSet"],
             "claim": "Proof (Lean 4): big-segment membership by provider answer under <key>.g<generation>, missing kind / generation cases, status = worst seen and present only if queried or NOT_CONFIGURED, provider queried at most once per context key. Tied by correspondence on status, query and membership-check logs. A double query through prerequisites was repaired (fix: 68555c1)."},
-    "C12": {"obligations": ["WriteSet"],
+    "C12": {"obligations": ["WriteSet", "Scratch"],
             "claim": "Proof (Lean 4, thin by design): the evaluator as a state machine returns its state unchanged, so any history answers like a fresh evaluator; the decision never depends on per-call state or on logger/recorder options. The content is the tie: histories against one real evaluator with changing stores compared with fresh evaluators, deep input snapshots, and the write-set obligation."},
-    "C13": {"obligations": ["WriteSet"], "race": True, "partial": ["the Go memory model and scheduler are outside the model; a race not observed in the explored schedules is not exhibited"],
+    "C13": {"obligations": ["WriteSet", "Scratch"], "race": True, "partial": ["the Go memory model and scheduler are outside the model; a race not observed in the explored schedules is not exhibited"],
             "claim": "PARTIAL. Proof (Lean 4) over an abstract shared-memory trace model: read-only shared data implies no conflicting access and every interleaving gives each thread its sequential observations. Tied by the write-set obligation (no shared writes reachable from Evaluate) and by concurrent runs of the real code under the Go race detector compared with sequential baselines."},
     "C14": {"obligations": ["WriteSet"], "needs_hooks": True,
             "claim": "Proof (Lean 4): every precomputed table/operand is transparent (key sets, typed equality sets incl. mixed types, regex/timestamp/semver operands), hence whole evaluations agree (evaluate_transparent: full observation equality). Tied by running each configuration in four construction forms on the real code and comparing Preprocess* dumps with the model. A zero-time operand defect was repaired (fix: bd47c6e)."},
